@@ -7,8 +7,14 @@ from harness import core, py2lean, instantiate
 from harness.core import Outcome, f2b, b2f
 
 ID = "C17"
-LEAN_TARGETS = ["BeyondVerif.Props.C17", "BeyondVerif.Props.C17Burn", "BeyondVerif.Props.C17Struct", "BeyondVerif.Props.C17Gauss", "BeyondVerif.Witness.C17"]
+LEAN_TARGETS = ["BeyondVerif.Props.C17", "BeyondVerif.Props.C17Burn", "BeyondVerif.Props.C17Struct", "BeyondVerif.Props.C17Reuse", "BeyondVerif.Props.C17Gauss", "BeyondVerif.Witness.C17"]
 THEOREMS = [
+    "BeyondVerif.C17.storeRet_history_free",
+    "BeyondVerif.C17.plain_history_free",
+    "BeyondVerif.C17.kepCont_history_free",
+    "BeyondVerif.C17.kepImp_history_free",
+    "BeyondVerif.C17.kepCont_shared_eq_new",
+    "BeyondVerif.C17.kepContAccel_history_free",
     "BeyondVerif.C17.qsw_axes",
     "BeyondVerif.C17.tnw_axes",
     "BeyondVerif.C17.qsw_proper_rotation",
@@ -87,6 +93,7 @@ LEVEL_TEXT = ("Lean theorems about code translated from the source on every run:
               "yields, for every input, the velocity v_final rotated by dangle (law of cosines), realises da to first order (HasDerivAt = 1) and, through to_tnw and the "
               "inclination / node slices of _cartesian_to_keplerian, di and dOmega to first order at the argument of latitude of dkep2aol (Gauss equations as HasDerivAt "
               "at every argument of latitude, finite for r, vt > 0, 0 < i < pi). "
+              "a Keplerian maneuver object called on any history of states returns, at each call, the projection on the current state of the level computed from the current state (statement lists of KeplerianContinuousMan.accel / KeplerianImpulsiveMan.dv regenerated, run as a state machine from any stored vector). "
               "Projection, attached frame, registry and step loop are hand-modelled and tied by differential correspondence with the real classes and KeplerNum.")
 LEVEL_NOTE = ("proof (partial): 'a continuous burn delivers its full delta-v' is false of the code for burns not aligned with the steps and for rk4 burns starting on the "
               "first date (two open findings, kernel-checked witnesses, exact deficit proved); 'converts to and from its parent frame without loss' is false after a name is "
@@ -103,10 +110,11 @@ TRUSTED = [
     "harness/props/C17.py extractors, each refusing shapes it does not know: Butcher nodes as exact float ratios and weights over a common denominator from the live "
     "KeplerNum.BUTCHER (-> Generated/ManWindow.lean); the loop nesting of KeplerNum._accel and its attraction term matched verbatim (-> Generated/AccelLoopSrc.lean, "
     "Generated/AccelSrc{F,R}.lean); constructor normalisation, `in (...)` tuples, to_local's if/elif chain, orbit2frame's check, the centre orbit2frame links the new centre under "
-    "(first argument of center_obj.add_link) (-> Generated/FrameNames.lean)",
+    "(first argument of center_obj.add_link), the statement lists of KeplerianContinuousMan.accel / KeplerianImpulsiveMan.dv and the absence of assignments to self in "
+    "ImpulsiveMan.dv / ContinuousMan.accel (-> Generated/FrameNames.lean)",
     "lean/templates/Vec3.tpl (numpy cross / norm / matrix-vector products on 3-vectors), lean/templates/Man.tpl (to_local dispatch, projection, attached frame, accelOf, "
     "kepContAccel), lean/BeyondVerif/Model/ManWin.lean (step loop of KeplerNum._iter/_make_step, divRound = datetime._divide_and_round, thrustUnits), "
-    "lean/BeyondVerif/Model/AccelLoop.lean (interpreter of the loop program), lean/BeyondVerif/Model/FrameName.lean (reading of the name tables), "
+    "lean/BeyondVerif/Model/AccelLoop.lean (interpreter of the loop program), lean/BeyondVerif/Model/ManObj.lean (meaning of store / return in a method of a maneuver object), lean/BeyondVerif/Model/FrameName.lean (reading of the name tables), "
     "lean/BeyondVerif/Model/FrameReg.lean (a frame name means its latest registration, except that a conversion into it reaches the nearest node of that name; "
     "conversions leave no trace; the store of reference objects): hand-written, tied by the correspondence run",
     "lean/BeyondVerif/Lemmas/Gauss.lean: the parametrisation of a state by (r, vr, vt, i, Omega, u) (the formulas of _keplerian_to_cartesian's position, hand-written)",
@@ -147,7 +155,8 @@ OPEN = [
 ]
 RULE = ("correspondence: to_local on random elliptic/hyperbolic/retrograde states (radii 1 m .. 3.8e8 m) and an unknown tag; ImpulsiveMan.dv / ContinuousMan.accel "
         "(accel= and dv=, every date_pos) for tags QSW/TNW/lowercase/None/other, each maneuver object evaluated on a first state, a second one and the first again; "
-        "KeplerianImpulsiveMan.dv, KeplerianContinuousMan.accel (durations with fractional seconds and above a day), dkep2dv, dkep2aol on increments 1e-3 m..2e6 m, "
+        "KeplerianImpulsiveMan.dv, KeplerianContinuousMan.accel (durations with fractional seconds and above a day), dkep2dv, dkep2aol on increments 1e-3 m..2e6 m; ONE Keplerian "
+        "maneuver object (continuous / impulsive) called on 2-5 different orbits in turn, first one revisited, vs the state machine of its regenerated statement list (c17.kseq); "
         "1e-7..0.3 rad; orbit2frame sessions (names registered — under the default and under other parents —, used at recurring dates, re-registered from another orbit / "
         "orientation / parent, used again: binding from the registry model, values from frameTo/frameFrom); world sessions over Orbit / Ephem / StateVector references in "
         "EME2000, MOD, TOD, TEME, ITRF, cartesian or keplerian, registered by orbit2frame or as_frame (what each conversion reads, the reference object compared bit for "
@@ -164,7 +173,9 @@ RULE = ("correspondence: to_local on random elliptic/hyperbolic/retrograde state
         "references of three classes in five frames unchanged after conversions and repeated conversions bitwise equal, re-registration under other parents, origin (zero position and velocity) and companion's relative position (difference of the two states in the parent "
         "frame, rotated by the axes of the definition) for reference orbits around the Moon, the Sun (solarsystem) and Mars, Venus, Moon, Sun of the JPL kernel of "
         "tests/data/jpl (in a process of its own), "
-        "|KeplerianContinuousMan.accel| x duration = |dkep2dv|, realised da/di/dOmega vs requested to first order")
+        "|KeplerianContinuousMan.accel| x duration = |dkep2dv|, realised da/di/dOmega vs requested to first order; every maneuver class / constructor form: one object "
+        "evaluated on several states = a new object per state (bitwise), one plan shared by two satellites (same list, Orbit.copy() + state update) propagated by KeplerNum = "
+        "plans of new objects, da realised by each propagated da-only Keplerian maneuver (rk4 whole-step burns, impulses)")
 
 LOCAL_PY = os.path.join(core.REPO, "beyond", "frames", "local.py")
 MAN_PY = os.path.join(core.REPO, "beyond", "orbits", "man.py")
@@ -438,6 +449,28 @@ def extract_frame_names(tree_man, tree_local, tree_frames, tree_orient):
     kd = py2lean.find_function(tree_man, "KeplerianImpulsiveMan.dv")
     if _n(kd.body[-1]) != "returnto_tnw(orb).T@self._dv":
         raise py2lean.Untranslatable("KeplerianImpulsiveMan.dv no longer returns to_tnw(orb).T @ self._dv")
+    # the statement lists of the two Keplerian methods (what is written to the object, when, and what is returned)
+    level = "dkep2dv(orb,da=self.da,di=self.di,dOmega=self.dOmega)"
+    progs = {}
+    for qual, stores, ret in (("KeplerianContinuousMan.accel", {"self._accel=" + level + "/self.duration.total_seconds()"}, "returnsuper().accel(orb)"),
+                              ("KeplerianImpulsiveMan.dv", {"self._dv=" + level}, "returnto_tnw(orb).T@self._dv")):
+        stmts = []
+        for st in _body_nodoc(py2lean.find_function(tree_man, qual)):
+            t = _n(st)
+            if t in stores:
+                stmts.append("CallStmt.store")
+            elif t == ret:
+                stmts.append("CallStmt.ret")
+            else:
+                raise py2lean.Untranslatable(f"{qual}: statement at line {st.lineno} is neither the unconditional assignment of the level computed from the state "
+                                             f"of the call nor the return of its projection: {t[:160]}")
+        progs[qual] = "[" + ", ".join(stmts) + "]"
+    for cls, meth in (("ImpulsiveMan", "dv"), ("ContinuousMan", "accel")):
+        for node in ast.walk(py2lean.find_function(tree_man, f"{cls}.{meth}")):
+            if isinstance(node, (ast.Assign, ast.AugAssign, ast.AnnAssign)):
+                for tg in (node.targets if isinstance(node, ast.Assign) else [node.target]):
+                    if _n(tg).startswith("self"):
+                        raise py2lean.Untranslatable(f"{cls}.{meth} writes to the maneuver object: {_n(node)[:160]}")
     b = lambda x: "true" if x else "false"   # noqa: E731
     sl = lambda xs: "[" + ", ".join(_lstr(x) for x in xs) + "]"   # noqa: E731
     return ("/- GENERATED by harness/props/C17.py from beyond/orbits/man.py, beyond/frames/local.py, beyond/frames/frames.py — do not edit. -/\n"
@@ -457,6 +490,13 @@ def extract_frame_names(tree_man, tree_local, tree_frames, tree_orient):
             f"def orbit2frameUpper : Bool := {b(o2f_up)}\n"
             "/-- `KeplerianContinuousMan.__init__`: `kwargs[\"frame\"] = …` -/\n"
             f"def kepContForcedFrame : List Char := {_lstr(first.value.value)}\n\n"
+            "/-- a statement of a method evaluating a Keplerian maneuver on a state -/\n"
+            "inductive CallStmt where\n  /-- `self._accel = dkep2dv(orb, …) / duration` resp. `self._dv = dkep2dv(orb, …)`, unconditional -/\n  | store\n"
+            "  /-- `return` of the projection of the stored vector on the state of the call -/\n  | ret\n  deriving DecidableEq, Repr\n\n"
+            "/-- `KeplerianContinuousMan.accel`, statement by statement -/\n"
+            f"def kepContAccelProg : List CallStmt := {progs['KeplerianContinuousMan.accel']}\n"
+            "/-- `KeplerianImpulsiveMan.dv`, statement by statement (`ImpulsiveMan.dv` / `ContinuousMan.accel` contain no assignment to `self`) -/\n"
+            f"def kepImpDvProg : List CallStmt := {progs['KeplerianImpulsiveMan.dv']}\n\n"
             "/-- a centre the `Center` of a frame made by `orbit2frame` can be linked under -/\n"
             "inductive CentreLink where\n  /-- the centre of the frame the reference orbit is expressed in (`ref_orbit.frame.center`) -/\n  | refFrameCentre\n"
             "  /-- the centre of the `parent` argument (`parent.center`) -/\n  | parentCentre\n  deriving DecidableEq, Repr\n\n"
@@ -730,6 +770,45 @@ def correspondence(ctx):
                     out, "c17-kepcont", "KeplerianContinuousMan.accel differs from to_tnw^T (dkep2dv / duration)", inp, real, rep, 1e-12 * m + 64 * 2.3e-16 * v / kdur + 1e-300))
         real_aol = float(dkep2aol(orbc, di, dO))
         add(" ".join(["c17.aol"] + ftoks([i, di, dO])), lambda rep, inp=inp, r=real_aol: cmp_floats(out, "c17-aol", "dkep2aol differs from the model", inp, [r], rep, 1e-12))
+    # 3b. ONE Keplerian maneuver object called on several different orbits in turn (the same plan given to several satellites,
+    #     a second propagation from another state, Orbit.copy()): the statement list of the method, regenerated from the source,
+    #     run as a state machine over the same history (theorems kepCont_history_free / kepImp_history_free: the k-th value is
+    #     a function of the k-th state)
+    from beyond.orbits.man import KeplerianContinuousMan
+    for _ in range(ctx.n(150, 6000)):
+        da, di, dO = gen_incr(rng)
+        if rng.random() < 0.5:
+            da, di, dO = da * 1e3 if abs(da) < 1e4 else da, di * 1e2 if abs(di) < 1e-3 else di, dO
+        kind = rng.choice(["cont", "imp"])
+        kdur = rng.choice([60.0, 90.5, 600.0, 0.75, 172800.25]) if kind == "cont" else 1.0
+        keps = [gen_kep_state(rng) for _k in range(rng.choice([2, 3, 4]))]
+        if rng.random() < 0.4:
+            keps.append(keps[0])
+        man = (KeplerianContinuousMan(d0, timedelta(seconds=kdur), da=da, di=di, dOmega=dO, date_pos=rng.choice(["start", "stop", "median"])) if kind == "cont"
+               else KeplerianImpulsiveMan(d0, da=da, di=di, dOmega=dO))
+        toks, reals, vs = [], [], []
+        for kep in keps:
+            orbc = mk_orbit(kep, "keplerian").copy(form="cartesian")
+            reals.append([float(t) for t in (man.accel(orbc) if kind == "cont" else man.dv(orbc))])
+            vs.append(float(orbc.infos.v))
+            toks += ftoks(list(map(float, orbc))) + ftoks([float(orbc.frame.center.body.mu), float(orbc.infos.kep.a), float(orbc.infos.kep.i), float(orbc.infos.v)])
+        finite = all(math.isfinite(t) for r in reals for t in r)
+        out.count(key=("kseq", kind, str(keps), da, di, dO, kdur), kind="kep-object-history-" + kind, nontrivial=finite, visits=len(keps))
+        if not finite:
+            continue
+        inp = {"kind": kind, "states_kep": keps, "da": da, "di": di, "dOmega": dO, "duration": kdur}
+
+        def chk_seq(rep, inp=inp, reals=reals, vs=vs, kdur=kdur):
+            t = rep.split()
+            if len(t) != 3 * len(reals) or "none" in t or not t[0][0].isdigit():
+                out.fail("c17-kep-object-history", "the state machine of the method returned nothing: " + rep[:80], inp); return
+            for k, real in enumerate(reals):
+                m = [b2f(x) for x in t[3 * k:3 * k + 3]]
+                tol = 1e-9 * norm(real) + 64 * 2.3e-16 * vs[k] / kdur + 1e-300
+                if not all(abs(a - b) <= tol for a, b in zip(real, m)):
+                    out.fail("c17-kep-object-history", f"call no. {k} of one Keplerian maneuver object on a sequence of states differs from the state machine of its method "
+                             "(level recomputed from the state of the call)", dict(inp, visit=k), observed=real, expected=m); return
+        add(" ".join(["c17.kseq", kind] + ftoks([kdur, da, di, dO, 0.0, 0.0, 0.0]) + toks), chk_seq)
     # 4. orbit-attached frames, as sessions: names are registered, used at a few recurring dates, registered again from
     #    another orbit / with another orientation, used again at the same dates.  The registry model (Model/FrameReg.lean)
     #    says which (orientation, orbit) each conversion must use; the numeric model (frameTo / frameFrom) gives the values.
@@ -1890,6 +1969,149 @@ def oracle_dkep(out, rng, N):
             out.fail("dkep2dv-first-order-plane", "realised (di, dOmega) differ from the requested ones beyond second order", inp, observed=[d_i, d_O], expected=[di, dO], tol=tol_ang)
 
 
+def gen_kep_state(rng):
+    """elliptic Keplerian elements LEO..GEO, perigee above 6500 km"""
+    a = rng.choice([6.9e6, 7.2e6, 1.2e7, 2.66e7, 4.2164e7]) * rng.uniform(0.97, 1.03)
+    e = rng.choice([0.0005, 0.01, 0.1, 0.4])
+    if a * (1 - e) < 6.5e6:
+        e = 0.01
+    return [a, e, rng.uniform(0.05, 3.0), rng.uniform(0, 6.28), rng.uniform(0, 6.28), rng.uniform(0, 6.28)]
+
+
+MAN_KINDS = ["kep-continuous", "kep-impulsive", "continuous-accel", "continuous-dv", "impulsive"]
+
+
+def mk_man(kind, args, date, dur):
+    """a NEW maneuver object from the recorded constructor arguments"""
+    from beyond.dates import timedelta
+    from beyond.orbits.man import ImpulsiveMan, ContinuousMan, KeplerianImpulsiveMan, KeplerianContinuousMan
+    if kind == "kep-continuous":
+        return KeplerianContinuousMan(date, timedelta(seconds=dur), da=args[0], di=args[1], dOmega=args[2])
+    if kind == "kep-impulsive":
+        return KeplerianImpulsiveMan(date, da=args[0], di=args[1], dOmega=args[2])
+    if kind == "continuous-accel":
+        return ContinuousMan(date, timedelta(seconds=dur), accel=list(args[:3]), frame=args[3])
+    if kind == "continuous-dv":
+        return ContinuousMan(date, timedelta(seconds=dur), dv=list(args[:3]), frame=args[3])
+    return ImpulsiveMan(date, list(args[:3]), frame=args[3])
+
+
+def gen_man_args(rng, kind):
+    if kind.startswith("kep"):
+        return list(gen_incr(rng))
+    return gen_vec(rng) + [rng.choice(["TNW", "QSW", "tnw", None])]
+
+
+def man_eval(man, orb):
+    import numpy as np
+    return np.array(man.accel(orb) if hasattr(man, "accel") else man.dv(orb), dtype=float)
+
+
+def same_vec(a, b):
+    import numpy as np
+    return bool(np.all((a == b) | (np.isnan(a) & np.isnan(b))))
+
+
+def man_reuse_eval(kind, args, dur, states):
+    """one object evaluated on the states in turn vs a new object per state -> index of the first difference"""
+    from beyond.dates import Date
+    d0 = Date(2020, 5, 24)
+    shared = mk_man(kind, args, d0, dur)
+    for k, (form, x) in enumerate(states):
+        orb = mk_orbit(x, form).copy(form="cartesian")
+        got, want = man_eval(shared, orb), man_eval(mk_man(kind, args, d0, dur), orb)
+        if not same_vec(got, want):
+            return k, got.tolist(), want.tolist()
+    return None
+
+
+def man_reuse_propagate(kind, args, start, dur, step, method, keps, span, how):
+    """the same maneuver object in the maneuver lists of several orbits propagated one after the other, vs a new object per
+    orbit -> (index of the orbit, final state with the shared object, final state with a new one, initial a, final a) per orbit"""
+    import numpy as np
+    from beyond.dates import Date, timedelta
+    d0 = Date(2020, 5, 24)
+    shared = mk_man(kind, args, d0 + timedelta(seconds=start), dur)
+    res = []
+    first = None
+    for k, kep in enumerate(keps):
+        ends = []
+        for man in (shared, mk_man(kind, args, d0 + timedelta(seconds=start), dur)):
+            if how == "copy" and first is not None and man is shared:
+                orb = first.copy()            # a copy shares the maneuver objects of the original
+                orb[:] = kep                  # ... and is given another state (orbit update, same plan)
+            else:
+                orb = mk_num(kep, step, method)
+                orb.maneuvers = [man]
+                if first is None and man is shared:
+                    first = orb.copy()
+            ends.append(orb.propagate(timedelta(seconds=span)))
+        res.append((k, np.array(ends[0], dtype=float), np.array(ends[1], dtype=float), kep[0], float(ends[0].copy(form="keplerian").a)))
+    return res
+
+
+def oracle_man_reuse(out, rng, N):
+    """what a maneuver contributes is a function of its definition and of the state it is evaluated on: one maneuver object
+    (every class / constructor form) evaluated on several different states gives, on each, what a new object gives
+    (theorems kepCont_history_free, kepImp_history_free, manProject is a function); the same plan shared by several orbits
+    (same list, Orbit.copy()) propagated with KeplerNum ends where a plan of new objects ends, and a da-only Keplerian burn
+    realises the requested increment on each of them"""
+    import numpy as np
+    for _ in range(N):
+        kind = rng.choice(MAN_KINDS)
+        args = gen_man_args(rng, kind)
+        dur = rng.choice([60.0, 90.5, 600.0, 0.75, 172800.25])
+        states = []
+        for _k in range(rng.choice([2, 3, 4])):
+            states.append(("keplerian", gen_kep_state(rng)) if kind.startswith("kep") or rng.random() < 0.5 else ("cartesian", gen_state(rng)))
+        if rng.random() < 0.3:
+            states.append(states[0])
+        inp = {"kind": kind, "args": args, "duration": dur, "states": [list(s) for s in states]}
+        out.count(key=("reuse", kind, tuple(map(str, args)), dur, str(states)), kind="man-reuse-" + kind, visits=len(states))
+        r = man_reuse_eval(kind, args, dur, states)
+        if r is not None:
+            out.fail("man-reuse-eval-" + kind, f"a maneuver object evaluated on its state no. {r[0]} (after other states) contributes something else than a new object with the same "
+                     "definition evaluated on that state", dict(inp, visit=r[0]), observed=r[1], expected=r[2])
+    for _ in range(max(2, N // 12)):
+        kind = rng.choice(["kep-continuous", "kep-continuous", "kep-continuous", "kep-impulsive", "continuous-accel", "continuous-dv", "impulsive"])
+        da_only = kind.startswith("kep") and rng.random() < 0.7
+        if da_only:
+            args = [rng.choice([-1, 1]) * 10 ** rng.uniform(2, 4.8), 0.0, 0.0]
+        elif kind.startswith("kep"):
+            args = list(gen_incr(rng))
+        else:
+            args = [x * 10 ** rng.uniform(-3, 1) * (1e-3 if kind == "continuous-accel" else 1) for x in rand_unit(rng)] + [rng.choice(["TNW", "QSW", None])]
+        step = rng.choice([30.0, 60.0])
+        method = rng.choice(["rk4", "rk4", "dopri54"])
+        start, dur = step * rng.randrange(1, 4), step * rng.randrange(4, 12)
+        span = start + dur + 2 * step
+        keps = []
+        for a in rng.sample([7.0e6, 1.2e7, 2.6e7, 4.2164e7], 2):
+            keps.append([a * rng.uniform(0.98, 1.02), rng.choice([1e-4, 1e-3]), rng.uniform(0.3, 2.5), rng.uniform(0, 6.28), rng.uniform(0, 6.28), rng.uniform(0, 6.28)])
+        how = rng.choice(["same-list", "copy"])
+        inp = {"kind": kind, "args": args, "start": start, "duration": dur, "step": step, "method": method, "orbits": keps, "span": span, "shared_by": how}
+        out.count(key=("reuse-prop", kind, tuple(map(str, args)), start, dur, step, method, str(keps), how), kind="man-reuse-propagate-" + kind, how=how)
+        try:
+            res = man_reuse_propagate(kind, args, start, dur, step, method, keps, span, how)
+        except Exception as e:  # noqa: BLE001
+            out.fail("man-reuse-raises-" + kind, f"propagating orbits that share a maneuver object raises {type(e).__name__}", inp, observed=repr(e)[:200])
+            continue
+        for k, shared_end, new_end, a0, a1 in res:
+            if not np.allclose(shared_end, new_end, rtol=1e-12, atol=1e-9, equal_nan=True):
+                out.fail("man-reuse-propagate-" + kind, f"orbit no. {k} of those sharing one maneuver object ends elsewhere than with a new maneuver object of the same definition",
+                         dict(inp, orbit=k), observed=shared_end.tolist(), expected=new_end.tolist())
+                break
+            # (a burn of whole fixed steps delivers its full delta-v - theorem whole_steps_full_dv_rk4; adaptive methods sample the on/off switch: known finding)
+            if da_only and (method == "rk4" or kind == "kep-impulsive"):
+                da = args[0]
+                tol = 20 * a0 * (da / a0) ** 2 + 2e-3 * abs(da) + 1.0
+                if abs((a1 - a0) - da) > tol:
+                    out.fail("kep-continuous-realised-da" if kind == "kep-continuous" else "kep-impulsive-realised-da",
+                             f"orbit no. {k}: the semi-major axis increment realised by the propagated maneuver differs from the requested one beyond second order",
+                             dict(inp, orbit=k), observed=a1 - a0, expected=da, tol=tol)
+                    break
+
+
 def oracle_accel_bodies(out, rng, N):
     """KeplerNum._accel: what the continuous maneuvers add (evaluation with them minus evaluation without) is the sum of the
     accelerations of the active ones, whatever the number of attracting bodies (theorem thrust_independent_of_bodies)"""
@@ -2188,6 +2410,7 @@ def oracle(ctx, widened):
     oracle_continuous(out, rng, 300 if big else 40)
     oracle_dkep(out, rng, 3000 if big else 400)
     oracle_accel_bodies(out, rng, 300 if big else 40)
+    oracle_man_reuse(out, rng, 600 if big else 60)
     oracle_names(out, rng, 60 if big else 6)
     oracle_frame_references(out, rng, 80 if big else 12)
     oracle_reregistration_parent(out, rng, 150 if big else 25)
@@ -2210,6 +2433,22 @@ def replay(f):
         sdv = stable_dkep2dv(float(orbc.infos.v), float(orbc.infos.kep.a), float(orbc.infos.kep.i), inp["da"], inp["di"], inp["dOmega"], mu=float(orbc.frame.center.body.mu))
         if not (np.all(np.isfinite(dv)) and np.allclose(dv, sdv, rtol=0, atol=1e-6 * norm(sdv) + 1e-12)):
             out.fail(fam, f["what"], inp, observed=dv.tolist(), expected=sdv)
+        return out
+    if fam.startswith("man-reuse-eval-") and isinstance(inp, dict) and "states" in inp:
+        r = man_reuse_eval(inp["kind"], inp["args"], inp["duration"], [tuple(x) for x in inp["states"]])
+        if r is not None:
+            out.fail(fam, f["what"], inp, observed=r[1], expected=r[2])
+        return out
+    if (fam.startswith("man-reuse-propagate-") or fam.endswith("-realised-da")) and isinstance(inp, dict) and "orbits" in inp:
+        import numpy as np
+        for k, shared_end, new_end, a0, a1 in man_reuse_propagate(inp["kind"], inp["args"], inp["start"], inp["duration"], inp["step"], inp["method"], inp["orbits"], inp["span"],
+                                                                  inp["shared_by"]):
+            if not np.allclose(shared_end, new_end, rtol=1e-12, atol=1e-9, equal_nan=True):
+                out.fail(fam, f["what"], inp, observed=shared_end.tolist(), expected=new_end.tolist())
+                break
+            if fam.endswith("-realised-da") and abs((a1 - a0) - inp["args"][0]) > f.get("tol", 0.0):
+                out.fail(fam, f["what"], inp, observed=a1 - a0, expected=inp["args"][0])
+                break
         return out
     # other families: re-run the oracle part that produced it with a fresh generator
     ctx = core.Ctx(ID, "quick", 0)
